@@ -1,5 +1,12 @@
-(* ocaml/ext.ml — operations of the op-script language whose models live outside Lin/ (added as
-   the algorithm models are delivered).  [init] receives the environment accessors of the driver. *)
+(* ocaml/ext.ml — operations of the op-script language whose models live outside Lin/ and Alg/Gauss.v:
+   PLE/PLUQ (C03), TRSM (C04), inversion (C05), solving (C06), kernel (C07), the Tier-A checker
+   commands chk_*, the Tier-B multiplication routes (C01) and the file I/O models (C18).
+   [init] receives the environment accessors of the driver.
+
+   Build-dependent constants of the faithful models come from the environment of the driver
+   (set by the engines per library variant; the defaults describe the host build at the sizes the
+   generic engines use, where no cache-dependent regime is entered):
+     VERIF_PLE_CUTOFF   __M4RI_PLE_CUTOFF in words  = MIN(524288, L3 >> 3)       (ple.h:40) *)
 open M4model
 open Conv
 
@@ -17,5 +24,147 @@ let h : hooks option ref = ref None
 let init hk = h := Some hk
 let hk () = match !h with Some x -> x | None -> failwith "ext not initialised"
 
+let env_int name dflt = match Sys.getenv_opt name with
+  | Some s -> (try int_of_string s with _ -> dflt) | None -> dflt
+let ple_cutoff () = nat_of_int (min 524288 (env_int "VERIF_PLE_CUTOFF" 524288))
+
+let ni = nat_of_int
+let nri m = int_of_nat m.nr
+let nci m = int_of_nat m.nc
+let die s = raise (Die s)
+let ok b = Printf.printf "ok %d\n" (if b then 1 else 0)
+let int_of_z (v : z) : int =
+  let s = shex_of_z v in
+  if s.[0] = '-' then - (int_of_string ("0x" ^ String.sub s 1 (String.length s - 1))) else int_of_string ("0x" ^ s)
+
+(* "ret" as an integer argument = the value of the last ret line *)
+let argi (s : string) : int = if s = "ret" then !lastret else int_of_string s
+
+let is_null_name (k : hooks) name = name = "-" || name = "NULL"
+
 let dispatch_ext (op : string) (a : string array) : unit =
-  raise (Unsupported op)
+  let k = hk () in
+  let m i = k.get_mat a.(i) in
+  let i j = argi a.(j) in
+  let plist j = k.get_perm_list a.(j) in
+  let put_ple (name_a, name_p, name_q) (((r, a'), (p, q)) : ple_out) =
+    k.set_mat name_a a'; k.set_perm_list name_p p; k.set_perm_list name_q q; print_ret (int_of_nat r) in
+  match op with
+  (* ------------------------------------------------------------------ C03 *)
+  (* every route = the block recursion of ple.c over a base case; all base cases (naive, Four
+     Russians for every k) return what the naive routine returns *)
+  | "ple" | "_ple" | "pluq" | "_pluq" ->
+    let x = m 1 and p0 = plist 2 and q0 = plist 3 in
+    if op = "ple" || op = "pluq" then begin
+      if List.length p0 <> nri x then die "P length";
+      if List.length q0 <> nci x then die "Q length" end;
+    let out = if op = "ple" || op = "_ple" then x_ple_rec x_ple_naive (ple_cutoff ()) x p0 q0
+      else x_pluq_rec x_ple_naive (ple_cutoff ()) x p0 q0 in
+    put_ple (a.(1), a.(2), a.(3)) out
+  | "_ple_naive" | "_ple_russian" ->
+    put_ple (a.(1), a.(2), a.(3)) (x_ple_naive (m 1) (plist 2) (plist 3))
+  | "_pluq_naive" ->
+    put_ple (a.(1), a.(2), a.(3)) (x_pluq_naive (m 1) (plist 2) (plist 3))
+  | "_pluq_russian" ->
+    put_ple (a.(1), a.(2), a.(3)) (x_pluq_of_ple (x_ple_naive (m 1) (plist 2) (plist 3)))
+  (* Tier A: the verified checkers on the implementation's output.  chk_ple A0 A' P Q r *)
+  | "chk_ple" -> ok (x_ple_ok (m 1) ((ni (i 5), m 2), (plist 3, plist 4)))
+  | "chk_pluq" -> ok (x_pluq_ok (m 1) ((ni (i 5), m 2), (plist 3, plist 4)))
+  (* ------------------------------------------------------------------ C04 *)
+  | "trsm_lower_left" | "_trsm_lower_left" | "trsm_upper_left" | "_trsm_upper_left" ->
+    let t = m 1 and b = m 2 in
+    if op.[0] <> '_' then begin
+      if nci t <> nri b then die "dims";
+      if nri t <> nci t then die "square" end;
+    k.set_mat a.(2) ((if op = "trsm_lower_left" || op = "_trsm_lower_left" then x_trsm_lower_left else x_trsm_upper_left) t b)
+  | "trsm_lower_right" | "_trsm_lower_right" | "trsm_upper_right" | "_trsm_upper_right" ->
+    let t = m 1 and b = m 2 in
+    if op.[0] <> '_' then begin
+      if nri t <> nci b then die "dims";
+      if nri t <> nci t then die "square" end;
+    k.set_mat a.(2) ((if op = "trsm_lower_right" || op = "_trsm_lower_right" then x_trsm_lower_right else x_trsm_upper_right) t b)
+  (* ------------------------------------------------------------------ C05 *)
+  | "inv_m4ri" ->
+    (* inv_m4ri RET DST A k : the unique inverse; for singular A the faithful model (no NULL, the
+       transformation matrix of the reduction) *)
+    let x = m 3 in
+    let r = match x_inv_m4ri_model x with Some b -> b | None -> x_inv_m4ri_faithful (ni (i 4)) x in
+    if a.(2) <> "-" then k.set_mat a.(2) (mcopy_into (m 2) r) else k.deliver a.(1) a.(2) r
+  | "invert_naive" ->
+    let x = m 3 and id = m 4 in
+    if nri x <> nri id then die "concat";
+    (match x_invert_naive_model x id with
+     | None -> if a.(2) = "-" then k.bind_null a.(1)
+     | Some r -> if a.(2) <> "-" then k.set_mat a.(2) (mcopy_into (m 2) r) else k.deliver a.(1) a.(2) r)
+  | "trtri_upper" -> k.set_mat a.(1) (x_trtri_upper_simple (m 1))
+  (* ------------------------------------------------------------------ C06 *)
+  | "solve_left" ->
+    (* solve_left A B cutoff check : A is overwritten by its PLUQ factorisation unless the padding
+       pre-check returns early; B by the faithful model (X when the verdict is 0) *)
+    let x = m 1 and b = m 2 in
+    let check = i 4 <> 0 in
+    (match x_solve_left_cfg (ple_cutoff ()) (ni (max 0 (i 3))) check x b with
+     | None -> die "solve_left dims"
+     | Some (ret, b') ->
+       let early = check && nri x < nri b && not (is_zero (msub b x.nr O (ni (nri b - nri x)) b.nc)) in
+       if not early then begin
+         let ((_, a'), _) = x_pluq_rec x_ple_naive (ple_cutoff ()) x (List.init (nri x) ni) (List.init (nci x) ni) in
+         k.set_mat a.(1) a' end;
+       k.set_mat a.(2) b';
+       print_ret (int_of_z ret))
+  | "pluq_solve_left" ->
+    (* pluq_solve_left A rank P Q B cutoff check *)
+    let x = m 1 and b = m 5 in
+    (match x_pluq_solve_left_model (ni (max 0 (i 6))) (i 7 <> 0) x (ni (i 2)) (plist 3) (plist 4) b with
+     | None -> die "pluq_solve_left dims"
+     | Some (ret, b') -> k.set_mat a.(5) b'; print_ret (int_of_z ret))
+  (* Tier A.  chk_solve A0 B0 X ret check *)
+  | "chk_solve" -> ok (x_solve_ok (m 1) (m 2) (m 3) (i 4 = 0) (i 5 <> 0))
+  (* ------------------------------------------------------------------ C07 *)
+  | "kernel_left_pluq" ->
+    (* kernel_left_pluq RET A cutoff *)
+    let x = m 2 in
+    let ((_, a'), _) = x_pluq_rec x_ple_naive (ple_cutoff ()) x (List.init (nri x) ni) (List.init (nci x) ni) in
+    (match x_kernel_left_cfg (ple_cutoff ()) (ni (max 0 (i 3))) x with
+     | None -> die "kernel"
+     | Some None -> k.bind_null a.(1)
+     | Some (Some r) -> k.bind_owned a.(1) r);
+    k.set_mat a.(2) a'
+  (* Tier A.  chk_kernel A0 K|NULL *)
+  | "chk_kernel" ->
+    ok (x_kernel_ok (m 1) (if a.(2) = "NULL" then None else Some (m 2)))
+  (* canonical basis of the null space, one vector per ROW (for dumpcanon-style comparisons) *)
+  | "kernel_rows" -> k.bind_owned a.(1) (x_kernel_rows (m 2))
+  (* ------------------------------------------------------------------ C01 Tier B *)
+  | "tb_mul_naive" | "tb_addmul_naive" | "tb_mul_m4rm" | "tb_addmul_m4rm" ->
+    (* tb_mul_m4rm RET C A B k blk : the faithful route models of Alg/Mul.v; they must agree with A*B *)
+    let x = m 3 and y = m 4 in
+    let clear = (op = "tb_mul_naive" || op = "tb_mul_m4rm") in
+    let c = if a.(2) = "-" then mzero x.nr y.nc else m 2 in
+    let r = if op = "tb_mul_naive" || op = "tb_addmul_naive" then x_naive_run (ni (i 5)) clear c x y
+      else x_m4rm_run (ni (i 5)) (ni (i 6)) clear c x y in
+    (match r with
+     | None -> raise (Unsupported "route model undefined on this input")
+     | Some r -> k.deliver a.(1) a.(2) r)
+  (* ------------------------------------------------------------------ C18 *)
+  | "io_png" ->     (* io_png n rowhex -> "png <status> <packed> <file> <row>" *)
+    let l = x_png_case (ni (i 1)) (n_of_hex a.(2)) in
+    Printf.printf "png%s\n" (String.concat "" (List.map (fun v -> " " ^ hex_of_n v) l))
+  | "io_pngread" -> (* io_pngread n len filebyteshex(le number) *)
+    let l = x_png_read_case (ni (i 1)) (ni (i 2)) (n_of_hex a.(3)) in
+    Printf.printf "pngread%s\n" (String.concat "" (List.map (fun v -> " " ^ hex_of_n v) l))
+  | "io_pnghdr" ->  (* io_pnghdr depthchk dimschk w h depth ctype interlace *)
+    Printf.printf "pnghdr %s\n" (hex_of_n (x_png_header_case (i 1 <> 0) (i 2 <> 0) (ni (i 3)) (ni (i 4)) (ni (i 5)) (ni (i 6)) (ni (i 7))))
+  | "io_jcf" ->     (* io_jcf c0..c5 conv m n p nz : tok... (signed hex) *)
+    let checks = List.init 6 (fun j -> a.(1).[j] = '1') in
+    let hdr = List.init 5 (fun j -> z_of_shex a.(2 + j)) in
+    let toks = ref [] in
+    for j = Array.length a - 1 downto 8 do toks := z_of_shex a.(j) :: !toks done;
+    let l = x_jcf_case checks hdr !toks in
+    Printf.printf "jcf%s\n" (String.concat "" (List.map (fun v -> " " ^ shex_of_z v) l))
+  | "io_str" ->     (* io_str m n string *)
+    let s = if Array.length a > 3 then a.(3) else "" in
+    let chars = List.init (String.length s) (fun j -> n_of_hex (Printf.sprintf "%x" (Char.code s.[j]))) in
+    let l = x_str_case (ni (i 1)) (ni (i 2)) chars in
+    Printf.printf "str%s\n" (String.concat "" (List.map (fun v -> " " ^ hex_of_n v) l))
+  | _ -> raise (Unsupported op)
